@@ -21,6 +21,7 @@ Usage
     db.llnl                 -> dict(temperatures=[..], dh_a=[..], dh_b=[..], bdot=[..], co2_coefs=[..]) or None
     db.exchange_master / db.surface_master -> dict name -> Master
     db.blocks               -> Counter of keyword blocks seen;  db.has_pitzer / db.has_sit
+    db.isotopes             -> {"H": ["D", "T"], "H(0)": ["D(0)", "T(0)"], ...} from the ISOTOPES block ({} if none)
     db.problems             -> list of (line_no, message): everything the parser could not read (empty = read completely)
 
 Species / Phase / NamedExpr share the log K data:
@@ -288,6 +289,7 @@ class Database(object):
         self.problems = []
         self.has_pitzer = self.has_sit = False
         self.redefined = []
+        self.isotopes = {}
 
     # ---- look-ups
     @property
@@ -506,7 +508,11 @@ def _mb_elements(text):
 
     t = re.sub(r"([A-Z][a-z_]*|\[[^\[\]]*\][a-z_]*)(\([+-]?\d+\.?\d*\))", rep, text)
     els = F.elements(t)
-    return {prot.get(k, k): v for k, v in els.items()}
+    out = {}
+    for k, v in els.items():            # several occurrences of one valence-qualified name add up (AgS(-2)4S(-2)5 -> S(-2) 9)
+        n = prot.get(k, k)
+        out[n] = out.get(n, 0.0) + v
+    return out
 
 
 def parse_text(text, name="<string>"):
@@ -613,6 +619,16 @@ def parse_text(text, name="<string>"):
                 else:
                     cur = opt
                     db.llnl[cur].extend(_all_numbers(toks[1:]))
+            elif block == "isotopes":
+                # ISOTOPES: an element line followed by "-isotope <minor isotope> <units> <standard ratio>" lines
+                if toks[0].startswith("-"):
+                    if "isotope".startswith(toks[0][1:].lower()) and len(toks) > 1 and isinstance(cur, str):
+                        db.isotopes.setdefault(cur, []).append(norm_element(toks[1]))
+                    else:
+                        raise ValueError("unexpected line %r" % line)
+                else:
+                    cur = norm_element(toks[0])
+                    db.isotopes.setdefault(cur, [])
             elif block == "rates":
                 if not (toks[0][0].isdigit() or toks[0].startswith("-")):
                     db.rates.append(toks[0])
